@@ -1572,6 +1572,8 @@ def _oracle_pem_ext(op, a):
             t = text.strip(_WS)
             if not (t.startswith(b"-----BEGIN ") and t.endswith(b"-----") and b"-----END " in t):
                 return "decode_pem accepted text that does not begin with a BEGIN line and end with an END line"
+            if t.split(b"\n")[0].find(b"-----", 12) < 0:
+                return "decode_pem accepted a BEGIN line without a label (-----BEGIN <at least one character>-----)"
             if r != _try(pm.decode_base64_pem, text):
                 return "decode_pem differs from decode_base64_pem"
         return None
